@@ -33,21 +33,53 @@ pub fn run(rep: &Report) {
         Case { op: "idiv", word: true, dx: 0, ax: 7, d: 0 },
     ];
     let mut rng = Rng::new(rep.seed).fork(0xC03C);
-    for _ in 0..(if rep.thorough() { 200 } else { 8 }) {
+    for _ in 0..(if rep.thorough() { 600 } else { 47 }) {
         let word = rng.chance(1, 2);
-        cases.push(Case { op: if rng.chance(1, 2) { "div" } else { "idiv" }, word, dx: rng.hostile16(), ax: rng.hostile16(), d: if word { rng.hostile16() } else { rng.hostile16() & 0xFF } });
+        cases.push(Case { op: if rng.chance(1, 2) { "div" } else { "idiv" }, word, dx: rng.hostile16(), ax: rng.hostile16(), d: if rng.chance(1, 2) { 0 } else if word { rng.hostile16() } else { rng.hostile16() & 0xFF } });
     }
     let n = cases.len();
     par_for(n, 1, |i| {
         let c = &cases[i];
+        // the shape of the text around the division varies: comments (ASCII and multi-byte, of many lengths) before
+        // it and on its own line, blank lines, a data section: the divide-error report works on source positions
+        let mut srng = Rng::new(0xC03D).fork(i as u64);
+        let comment = |rng: &mut Rng| -> String {
+            let alphabet: &[&str] = match rng.below(3) { 0 => &["a", "b", " ", "0"], 1 => &["\u{20ac}", "\u{e9}", "\u{1F600}", "x"], _ => &["\u{20ac}"] };
+            let n = 1 + rng.below(40);
+            let mut t = String::from("; ");
+            for _ in 0..n {
+                t.push_str(alphabet[rng.below(alphabet.len())]);
+            }
+            t
+        };
+        let mut prelude = String::new();
+        let mut tail = String::new();
+        let shape = i % 4;
+        if shape != 0 {
+            for _ in 0..(1 + srng.below(6)) {
+                match srng.below(4) {
+                    0 => prelude.push('\n'),
+                    1 if shape == 3 => prelude.push_str("v0: db 1\n"),
+                    _ => {
+                        prelude.push_str(&comment(&mut srng));
+                        prelude.push('\n');
+                    }
+                }
+            }
+            if srng.chance(1, 2) {
+                tail = format!(" {}", comment(&mut srng));
+            }
+        }
         let src = format!(
-            "start:\nmov dx, {}\nmov ax, {}\nmov {}, {}\n{} {}\nmov cx, 30583\n",
+            "{}start:\nmov dx, {}\nmov ax, {}\nmov {}, {}\n{} {}{}\nmov cx, 30583\n",
+            prelude,
             c.dx,
             c.ax,
             if c.word { "bx" } else { "bl" },
             c.d,
             c.op,
-            if c.word { "bx" } else { "bl" }
+            if c.word { "bx" } else { "bl" },
+            tail
         );
         let out = run_cli(src.as_bytes(), &CliOpts::default());
         rep.eval(1);
@@ -58,7 +90,7 @@ pub fn run(rep: &Report) {
             ("div", true) => div16(c.dx, c.ax, c.d),
             _ => idiv16(c.dx, c.ax, c.d),
         };
-        rep.distinct_str(&format!("cli-div|{}|{}|{:?}", c.op, c.word, std::mem::discriminant(&res)));
+        rep.distinct_str(&format!("cli-div|{}|{}|{:?}|{}", c.op, c.word, std::mem::discriminant(&res), shape));
         let wit = |sym: &str| {
             format!(
                 "{{\"kind\": \"cli\", \"source\": {}, \"stdin\": \"\", \"symptom\": {}, \"status\": {}, \"stdout_plain\": {}}}",
